@@ -1,6 +1,6 @@
 (** C03 — Storage errors leave committed state unchanged or fully applied. Statement file. *)
 From Coq Require Import List NArith Bool.
-From SL Require Import Base.Tie Core.Model C02.Model C03.Model C03.Proofs.
+From SL Require Import Base.Tie Core.Model C02.Model C03.Model C03.Proofs C03.Others.
 Import ListNotations.
 
 (** One failing storage call anywhere in a commit (before or after its effect): the commit either
@@ -19,6 +19,34 @@ Proof. exact single_fault_prop. Qed.
 Theorem C03_any_faults_openable : forall f : faults,
   r_disk_new (commit_f true true f) = true -> r_newseg (commit_f true true f) = true.
 Proof. exact any_faults_openable_prop. Qed.
+
+(** add_document / delete_documents under a failing log write: committed contents never change; a
+    successful call queues the operation (handle and log); a failed call never leaves it in the
+    handle's queue (it may survive in the log only - the 'orphan' the specification allows). *)
+Theorem C03_add_fault_safe : forall f : fk,
+  a_contents_changed (add_f f) = false /\
+  (a_ok (add_f f) = true -> a_in_queue (add_f f) = true /\ a_in_log (add_f f) = true) /\
+  (a_ok (add_f f) = false -> a_in_queue (add_f f) = false).
+Proof. exact add_fault_safe. Qed.
+
+(** rollback under failing truncation steps: contents unchanged, the handle's queue is cleared,
+    and a rollback that returns success has cleared the log. *)
+Theorem C03_rollback_fault_safe : forall f1 f2 : fk,
+  b_contents_changed (rollback_f f1 f2) = false /\ b_queue_cleared (rollback_f f1 f2) = true /\
+  (b_ok (rollback_f f1 f2) = true -> b_log_cleared (rollback_f f1 f2) = true).
+Proof. exact rollback_fault_safe. Qed.
+
+(** compaction under any combination of failing steps: the running index and the stored index
+    always refer to existing segment files only (and compaction is content-neutral), and a
+    compaction that returns success has switched both. *)
+Theorem C03_compact_faults_openable : forall f1 f2 f3 f4 : fk,
+  compact_openable (compact_f f1 f2 f3 f4) = true.
+Proof. exact compact_faults_openable. Qed.
+
+Theorem C03_compact_ok_complete : forall f1 f2 f3 f4 : fk,
+  c_ok (compact_f f1 f2 f3 f4) = true ->
+  c_mem_new (compact_f f1 f2 f3 f4) = true /\ c_disk_new (compact_f f1 f2 f3 f4) = true.
+Proof. exact compact_ok_complete. Qed.
 
 (** The code as found violated both sentences (repaired by two fix: commits). *)
 Theorem C03_unfixed_truncate_refuted :
